@@ -46,6 +46,10 @@ def c02() -> int:
     # two bases on one cell (one without plugs, one with): a vehicle parked at one is told to charge / park at the other
     fsx(c, RES + ({"variant": "core", "twin_base": True, "pairs": False, "name": "W-res/twin-base"},), ("hivemc.bundles", "c02", {}), K=2 if quick else 3, H=6 if quick else 8,
         needs=["instr:ReserveBase:ChargeBase:ChargingBase"])
+    # the station serving base b0 (on the base's cell) offers two plug types: plugged in at the station on one, told to charge through
+    # the base on the other (and back)
+    fsx(c, RES + ({"variant": "core", "bs_two_plugs": True, "pairs": False, "name": "W-res/base-station-two-plugs"},), ("hivemc.bundles", "c02", {}), K=2 if quick else 3, H=6 if quick else 8,
+        needs=["instr:ChargingStation:ChargeBase:ChargingBase"])
     auto_worlds(c, "c02", quick, grid=True)
     if not quick:
         fsx(c, RES + ({"variant": "core", "slots": 2, "low_energy": False, "name": "W-res/two-slots/menu-probe"},), ("hivemc.bundles", "c02_probe", {}), K=2, H=7, needs=["c02:menu_probe"])
